@@ -21,8 +21,11 @@ pub enum Kind {
 
 #[derive(Default, Debug)]
 pub struct MonState {
-    /// (task, depth, kind of the outermost acquisition)
-    depth: Vec<(usize, u32, Option<Kind>)>,
+    /// (task, depth, kind of the outermost acquisition, BMCA epoch of its last acquisition)
+    depth: Vec<(usize, u32, Option<Kind>, u64)>,
+    /// task that runs instance.bmca(); its writes start a new epoch
+    pub coordinator: Option<usize>,
+    pub bmca_epoch: u64,
     pub max_depth: u32,
     /// order in which the lock was obtained: (task, kind)
     pub order: Vec<(u8, Kind)>,
@@ -56,11 +59,11 @@ fn me() -> usize {
 impl Monitor {
     fn enter(&self, kind: Kind) {
         let t = me();
-        let mut st = self.st.lock().unwrap();
+        let mut st = self.st.lock().unwrap_or_else(|e| e.into_inner());
         let idx = match st.depth.iter().position(|d| d.0 == t) {
             Some(i) => i,
             None => {
-                st.depth.push((t, 0, None));
+                st.depth.push((t, 0, None, 0));
                 st.depth.len() - 1
             }
         };
@@ -87,8 +90,15 @@ impl Monitor {
 
     fn acquired(&self, kind: Kind) {
         let t = me();
-        let mut st = self.st.lock().unwrap();
+        let mut st = self.st.lock().unwrap_or_else(|e| e.into_inner());
         st.order.push((t as u8, kind));
+        if kind == Kind::Write && st.coordinator == Some(t) {
+            st.bmca_epoch += 1;
+        }
+        let e = st.bmca_epoch;
+        if let Some(d) = st.depth.iter_mut().find(|d| d.0 == t) {
+            d.3 = e;
+        }
         match kind {
             Kind::Read => st.reads += 1,
             Kind::Write => {
@@ -98,9 +108,22 @@ impl Monitor {
         }
     }
 
+    /// The calling thread runs the BMCA from now on.
+    pub fn i_am_coordinator(&self) {
+        self.st.lock().unwrap_or_else(|e| e.into_inner()).coordinator = Some(me());
+    }
+
+    /// Number of BMCA writes that had happened when the calling thread last got the lock
+    /// (taken while it held the lock, so it is exact).
+    pub fn epoch_of_my_last_acquisition(&self) -> u64 {
+        let t = me();
+        let st = self.st.lock().unwrap_or_else(|e| e.into_inner());
+        st.depth.iter().find(|d| d.0 == t).map(|d| d.3).unwrap_or(0)
+    }
+
     fn exit(&self) {
         let t = me();
-        let mut st = self.st.lock().unwrap();
+        let mut st = self.st.lock().unwrap_or_else(|e| e.into_inner());
         if let Some(d) = st.depth.iter_mut().find(|d| d.0 == t) {
             d.1 -= 1;
             if d.1 == 0 {
@@ -120,9 +143,8 @@ fn name(k: Kind) -> &'static str {
 struct ExitGuard<'a>(&'a Monitor);
 impl Drop for ExitGuard<'_> {
     fn drop(&mut self) {
-        if !std::thread::panicking() {
-            self.0.exit();
-        }
+        // also while unwinding; `exit` cannot panic
+        self.0.exit();
     }
 }
 
